@@ -36,6 +36,9 @@ Record case := {
      (stack, count) its trie holds, and every request the server received: decoded query, Iterate of the decoded body *)
   c_burst : list (upload_job * (bytes * N));
   c_burst_got : list (query * list (bytes * N));
+  (* a sequence of uploads of the same profile to ONE series and one window, each with its own metadata (consecutive ones
+     differ in one field): the metadata sent and what storage.Get / the segment report after that upload *)
+  c_seq : list (meta * stored);
   c_names : list (list N);          (* every series name this case uploaded under, as runes ([]rune(name): Go's UTF-8 decoding) *)
   c_stored_keys : list bytes;       (* the segment keys found in the storage's index for this case's applications *)
   c_remote_rawq : option bytes;     (* r.URL.RawQuery of the request remote.uploadProfile sent *)
@@ -143,6 +146,17 @@ Definition burst_ok (burst : list (upload_job * (bytes * N))) (got : list (query
                      | _ => false
                      end) burst.
 
+(* after k uploads of ms into one slot: the counts add up; an 'average' series is divided by the number of writes *)
+Definition seq_expect (ms : list (bytes * N)) (k : nat) (agg : bytes) : tnode :=
+  let t := from_multiset (concat (repeat ms k)) in
+  if beqb agg (ascii "average") then t_clone 1 (N.of_nat k) t else t.
+Fixpoint seq_ok (ms : list (bytes * N)) (k : nat) (l : list (meta * stored)) : bool :=
+  match l with
+  | [] => true
+  | (m, s) :: r =>
+      meta_eqb m s && tree_is (seq_expect ms k (snd m)) s && seq_ok ms (S k) r
+  end.
+
 Definition check_case (c : case) : verdict :=
   let want := from_multiset (c_ms c) in
   let m := match c_meta c with Some m => m | None => default_meta end in
@@ -151,6 +165,8 @@ Definition check_case (c : case) : verdict :=
      [ spec (forallb (fun k => existsb (beqb k) (c_stored_keys c)) expected
              && forallb (fun k => existsb (beqb k) expected) (c_stored_keys c))
             "the profiles are not stored under exactly the series whose key is the normalised form of the name sent (sorted tags, trimmed, last duplicate wins)" ]) ++
+    [ spec (seq_ok (c_ms c) 1 (c_seq c))
+           "uploads to an existing series: the metadata of the latest upload (spy, rate, units, aggregation) is not what is stored, or the window does not answer with it" ] ++
     [ spec (burst_ok (c_burst c) (c_burst_got c))
            "remote uploader with several threads: a job of the burst did not arrive exactly once under its own name, window and metadata" ] ++
     check_sent "collapsed text" FGroups want m (c_groups c) ++
